@@ -799,6 +799,10 @@ def Mem.openLoad (m : Mem) : Mem :=
     queue := m.pQueue
     cards := [], enrRecs := [], sketch := [] }
 
+/-- `persist_sketch_track` when the track is non-empty -/
+def Mem.persistSketch (m : Mem) : Mem :=
+  { m with pSketch := if m.sketch.isEmpty then m.pSketch else m.sketch }
+
 /-- `recover_wal`; `ft` = footer after a replay that rebuilt indexes / flushed Tantivy -/
 def Mem.recoverWal (m1 : Mem) (ft : Nat) : Mem :=
   if m1.pending.isEmpty then m1.flushTantivy ft
@@ -806,10 +810,11 @@ def Mem.recoverWal (m1 : Mem) (ft : Nat) : Mem :=
     match applyRecords m1 m1.pending true with
     | none => m1
     | some (ma, delta) =>
-      (if delta.nonEmpty then ma.rebuildIndexes delta.embs delta.inserted ft else ma.flushTantivy ft).checkpoint
+      -- (repaired code: the sketch track is re-persisted after the replay)
+      (if delta.nonEmpty then ma.rebuildIndexes delta.embs delta.inserted ft else ma.flushTantivy ft).persistSketch.checkpoint
 
-/-- `load_memories_track`, `load_sketch_track` (without a manifest the tracks built by the WAL
-    replay stay as they are) -/
+/-- `load_memories_track`, `load_sketch_track` (repaired code: BEFORE the WAL replay, so that the
+    replay's index rebuild persists them again) -/
 def Mem.loadTracks (m2 : Mem) : Mem :=
   { m2 with
     cards := match m2.pCards with | some c => c.1 | none => m2.cards
@@ -818,7 +823,7 @@ def Mem.loadTracks (m2 : Mem) : Mem :=
     sketch := if m2.pSketch.isEmpty then m2.sketch else List.range m2.pSketch.length }
 
 /-- `open_locked` on the file the model state describes -/
-def Mem.openFrom (m : Mem) (ft : Nat) : Mem := (m.openLoad.recoverWal ft).loadTracks
+def Mem.openFrom (m : Mem) (ft : Nat) : Mem := m.openLoad.loadTracks.recoverWal ft
 
 /-- drop the handle (commit when dirty) and open the file again -/
 def Mem.reopen (m : Mem) (ftDrop ftOpen : Nat) : Mem × Out :=
@@ -883,6 +888,7 @@ inductive Op where
   | commitSkipIndexes
   | finalizeIndexes (ft : Nat)
   | vacuum (ftCommit ftRebuild : Nat)
+  /-- `rebuild*` = requested by the options OR scheduled by the doctor's own probe (trace input) -/
   | doctor (vacuum rebuildTime rebuildLex rebuildVec : Bool) (ftDrop ftA ftB ftOpen : Nat)
   | ticket (seqNo : Int) (cap : Nat) (issuerBlank issuerFree : Bool)
 deriving Repr, Inhabited
@@ -911,7 +917,13 @@ def Mem.doctorStage2 (m2 : Mem) (any rv : Bool) (ftB : Nat) : Mem :=
     again afterwards): open (with WAL replay), optional vacuum, then — when any rebuild was requested —
     `apply_pending_rebuilds` followed by `reset_wal`.  The frame table is only touched by the vacuum. -/
 def Mem.doctor (m : Mem) (vac rt rl rv : Bool) (ftDrop ftA ftB ftOpen : Nat) : Mem × Out :=
-  ((((m.doctorStage1 vac ftDrop ftA ftB).doctorStage2 (rt || rl || rv) rv ftB).dropHandle ftB).openFrom ftOpen, .ok)
+  if (m.dropHandle ftDrop).pending.isEmpty then
+    ((((m.doctorStage1 vac ftDrop ftA ftB).doctorStage2 (rt || rl || rv) rv ftB).dropHandle ftB).openFrom ftOpen, .ok)
+  else
+    -- WAL records left behind by a non-dirty handle (the Lex record of vacuum / finalize / an open-time
+    -- flush): the doctor's planner hits `debug_assert!(probe.wal_pending == 0)` (debug profile, the one
+    -- the harness and the repo's test-suite use) and does nothing; the next open replays the WAL
+    ((m.dropHandle ftDrop).openFrom ftOpen, .ok)
 
 def step (m : Mem) : Op → Mem × Out
   | .create => (Mem.create, .ok)
